@@ -360,7 +360,7 @@ func cmdCheck(args []string) int {
 		"level":       s.Level,
 		"wall_s":      time.Since(start).Seconds(),
 		"violations":  violations,
-		"assumptions": s.Assume,
+		"assumptions": append([]string{"the simulated disk, clock and scheduler model the real ones faithfully (DESIGN.md §2)"}, s.Assume...),
 	}
 	samples := []interface{}{}
 	for _, sm := range agg.Samples {
